@@ -2,6 +2,7 @@
 //!
 //! stdin, one case per line (fields separated by one TAB):
 //!   case <id> <mode> <delay_us> <bound_ms> <program on one line>
+//! The program may consist of several evaluations separated by `;;;UNIT;;;` (the request is aimed at the last one).
 //! mode
 //!   mark   the watcher thread waits until the script has called `(c17-mark!)` (a host function that the
 //!          generated programs call once they are inside their loop), then sleeps <delay_us>, then calls
@@ -88,12 +89,26 @@ fn main() {
         let mode = f[2].to_string();
         let delay = Duration::from_micros(f[3].parse().unwrap_or(0));
         let bound = Duration::from_millis(f[4].parse().unwrap_or(2000));
-        let program = f[5].to_string();
+        // `;;;UNIT;;;` separates evaluations: all but the last are run first, each by its own `Engine::run` (definitions
+        // made in an earlier evaluation are not inlined into the calls of a later one); the request targets the last.
+        let mut units: Vec<String> = f[5].split(";;;UNIT;;;").map(|u| u.trim().to_string()).collect();
+        let program = units.pop().unwrap_or_default();
 
         MARK.store(false, Ordering::SeqCst);
         let mut engine = Engine::new();
         engine.register_fn("c17-mark!", mark);
         let controller = engine.get_thread_state_controller();
+        let mut setup_err = None;
+        for u in units {
+            if let Err(e) = engine.run(u) {
+                setup_err = Some(clean(&e.to_string()));
+                break;
+            }
+        }
+        if let Some(e) = setup_err {
+            emit(&format!("case {id} outcome=error:setup:{e} latency_us=-1 marked=0 requests=0 probe=skipped"));
+            continue;
+        }
 
         let started = Arc::new(AtomicBool::new(false));
         let done = Arc::new(AtomicBool::new(false));
